@@ -75,6 +75,54 @@ pub fn entry_points() -> Vec<EntryPoint> {
         pair_ok(&pk, &sk)?;
         Ok([pk, sk].concat())
     }));
+    // the same in-place generators called again and again on ONE caller buffer that is never reset (it starts
+    // with a non-zero pattern and afterwards holds the previous call's output)
+    {
+        use std::sync::Mutex;
+        let b = Mutex::new(([0x77u8; 32], [0x77u8; 32]));
+        v.push(ep("crypto_box_keypair_inplace (caller buffers reused)", move || {
+            let mut g = b.lock().unwrap();
+            let (pk, sk) = &mut *g;
+            dryoc::classic::crypto_box::crypto_box_keypair_inplace(pk, sk);
+            pair_ok(pk, sk)?;
+            Ok([*pk, *sk].concat())
+        }));
+        let b = Mutex::new(([0x77u8; 32], [0x77u8; 64]));
+        v.push(ep("crypto_sign_keypair_inplace (caller buffers reused)", move || {
+            let mut g = b.lock().unwrap();
+            let (pk, sk) = &mut *g;
+            dryoc::classic::crypto_sign::crypto_sign_keypair_inplace(pk, sk);
+            sign_pair_ok(pk, sk)?;
+            Ok([&pk[..], &sk[..32]].concat())
+        }));
+        let b = Mutex::new([0x77u8; 32]);
+        v.push(ep("crypto_secretbox_keygen_inplace (caller buffer reused)", move || {
+            let mut g = b.lock().unwrap();
+            dryoc::classic::crypto_secretbox::crypto_secretbox_keygen_inplace(&mut g);
+            Ok(g.to_vec())
+        }));
+        let b = Mutex::new(vec![0x77u8; 40]);
+        v.push(ep("rng::copy_randombytes(40) (caller buffer reused)", move || {
+            let mut g = b.lock().unwrap();
+            dryoc::rng::copy_randombytes(&mut g);
+            Ok(g.clone())
+        }));
+        let b = Mutex::new((dryoc::classic::crypto_secretstream_xchacha20poly1305::State::new(), [0x77u8; 24]));
+        v.push(ep("crypto_secretstream init_push header (state and header buffer reused)", move || {
+            use dryoc::classic::crypto_secretstream_xchacha20poly1305 as css;
+            let mut g = b.lock().unwrap();
+            let (st, h) = &mut *g;
+            css::crypto_secretstream_xchacha20poly1305_init_push(st, h, &[7u8; 32]);
+            Ok(h.to_vec())
+        }));
+        let b = Mutex::new(vec![0x77u8; 3 + 48]);
+        v.push(ep("crypto_box_seal ephemeral key (ciphertext buffer reused)", move || {
+            let rpk = sodium::scalarmult_base(&[5u8; 32]);
+            let mut g = b.lock().unwrap();
+            dryoc::classic::crypto_box::crypto_box_seal(&mut g, b"abc", &rpk).map_err(|e| format!("{e:?}"))?;
+            Ok(g[..32].to_vec())
+        }));
+    }
     v.push(ep("crypto_kx_keypair", || {
         let (pk, sk) = dryoc::classic::crypto_kx::crypto_kx_keypair();
         pair_ok(&pk, &sk)?;
@@ -287,7 +335,7 @@ pub fn screen(name: &str, values: &[Vec<u8>]) -> Result<usize, String> {
 
 pub fn run(ctx: &mut Ctx) -> Result<(), Violation> {
     let nightly_part = cfg!(feature = "nightly") && std::env::var("VERIF_PART").as_deref() == Ok("nightly");
-    ctx.rule = "History = N calls to each randomised entry point (gen for stack/array/Vec containers of 8/16/24/32/64 bytes, randombytes_buf, copy_randombytes, every *_keygen and *_keypair in classic and object modules, Kdf::gen, the stream header from classic and object init_push, the sealed-box ephemeral key from crypto_box_seal and DryocBox::seal, the salt of PwHash::hash (16- and 24-byte) and of crypto_pwhash_str decoded from the string; heap/locked generators in the nightly sub-run), interleaved across entry points by a seeded schedule. Oracle per entry point: no all-zero value (outputs >= 16 bytes); at most c colliding pairs with c derived so that the false-alarm probability is < 2^-100 (0 for >= 16 bytes); no byte position constant across the N values; every byte position takes >= 16 distinct values (N >= 64); key pairs satisfy pk = base(sk) / derive from their seed. Non-trivial: an entry point for which all N calls completed with N distinct values; distinct = number of distinct values observed (measured, summed); evaluations = total calls. The subject is OS randomness, so values differ between runs; VERIF_SEED only fixes the interleaving.".into();
+    ctx.rule = "History = N calls to each randomised entry point (gen for stack/array/Vec containers of 8/16/24/32/64 bytes, randombytes_buf, copy_randombytes, every *_keygen and *_keypair in classic and object modules, Kdf::gen, the stream header from classic and object init_push, the sealed-box ephemeral key from crypto_box_seal and DryocBox::seal, the salt of PwHash::hash (16- and 24-byte) and of crypto_pwhash_str decoded from the string; heap/locked generators in the nightly sub-run), interleaved across entry points by a seeded schedule; the in-place generators are additionally driven on one never-reset caller buffer. Oracle per entry point: no all-zero value (outputs >= 16 bytes); at most c colliding pairs with c derived so that the false-alarm probability is < 2^-100 (0 for >= 16 bytes); no byte position constant across the N values; every byte position takes >= 16 distinct values (N >= 64); key pairs satisfy pk = base(sk) / derive from their seed. Non-trivial: an entry point for which all N calls completed with N distinct values; distinct = number of distinct values observed (measured, summed); evaluations = total calls. The subject is OS randomness, so values differ between runs; VERIF_SEED only fixes the interleaving.".into();
     ctx.assumptions = vec![
         "statistical screening detects constant, zero, repeated, partially filled or low-entropy outputs; it cannot establish independence or unpredictability".into(),
         "false-alarm probability per run < 2^-100 by construction of the thresholds".into(),
